@@ -6,9 +6,9 @@ Definition rect (c t : Z) (b : list (list Z)) : Prop := zlen b = c /\ Forall (fu
 Definition wf (x : pd) : Prop :=
   match shape x, dat x, chan x, meta x with
   | [t], N1 r, LOne _, LOne _ => zlen r = t
-  | [c; t], N2 b, LMany l, LOne _ => rect c t b /\ zlen l = c                       (* len(channel) = n_channels *)
+  | [c; t], N2 b, LMany l, LOne _ => 0 <= t /\ rect c t b /\ zlen l = c            (* len(channel) = n_channels *)
   | [e; c; t], N3 d, LMany l, LMany m =>
-    zlen d = e /\ Forall (rect c t) d /\ zlen l = c /\ zlen m = e                    (* ... and len(metadata) = n_epochs *)
+    0 <= c /\ 0 <= t /\ zlen d = e /\ Forall (rect c t) d /\ zlen l = c /\ zlen m = e    (* ... and len(metadata) = n_epochs *)
   | _, _, _, _ => False
   end.
 
